@@ -371,6 +371,15 @@ func main() {
 			}
 		}
 	}
+	// 1b. large messages (16 KiB .. beyond 64 KiB: 16 .. 69 frames), a few segmentations and buffer sizes
+	for _, m := range []int{16384, 65535, 65536, 70000} {
+		for _, sg := range []string{"whole", "per-frame", "random", "header-split"} {
+			for _, b := range []string{"1024", "4096", "8192", "random"} {
+				do(scriptCase{Msgs: []int{m, 17}, Policy: "max", Seg: sg, Idle: "random", Buf: b}, -1)
+				r.Count("scripts_with_a_message_of_16_to_69_frames", 1)
+			}
+		}
+	}
 	// 2. every single cut offset of base streams (<= 2.2 KB), with and without an idle period at the cut
 	bases := [][]int{{1, 2}, {17, 100}, {1023}, {1024}, {1025}, {100, 1024, 2}, {2048}}
 	for _, base := range bases {
